@@ -3,6 +3,8 @@
 
 package pipe
 
+import "time"
+
 // Accessors for the C10/C11 correspondence harnesses (verification build only).
 
 // VC10PipeState returns Pos, LastKnwnPos and wCharged of the descriptor the pipe `name` keeps for the
@@ -36,4 +38,10 @@ func (s *Service) VC10WithPipeLock(name string, f func()) bool {
 	defer pp.lock.Unlock()
 	f()
 	return true
+}
+
+// VC10RunPipesCleaner starts one more pipesCleaner goroutine with the given delays (the service starts its own with
+// 1 min / 10 min); it ends with the service.
+func (s *Service) VC10RunPipesCleaner(startTo, to time.Duration) {
+	go s.pipesCleaner(startTo, to)
 }
